@@ -214,6 +214,9 @@ func runE1(spec RunSpec, ch *Choices) *RunResult {
 	}
 	if x.spec.Prop == "C13" {
 		x.checkByz()
+		if x.byzP != nil {
+			x.checkByzFlood(x.byzP)
+		}
 	}
 
 	// phase 4: teardown and leak census
